@@ -198,7 +198,7 @@ def judge (c : Cfg Float) (rows : List Seq) (ranges : List Int) (m : List (List 
     | some v =>
       if huge s then
         (if close 1e-9 e v || e.isNaN || (isSubst e && e > 0) || polluted e then "" else undefinedCause p e)
-      else if attrib && v < 0 then
+      else if attrib && v < -1e-9 then
         -- frequencies that do not sum to one can make F84 / TN93 negative; the matrix then substitutes
         (if isSubst e || polluted e || e == 0 || e.isNaN then "" else "formula")
       else if !close 1e-9 e v then
@@ -235,7 +235,7 @@ def inQuantifier (c : Cfg Float) (rows : List Seq) : Bool :=
   c.alpha > 0 && fclass c.alpha == 3
 
 def verdictD (c : Cfg Float) (rows : List Seq) (ranges : List Int) (impl : String)
-    (raw : Nat → Nat → Option Float) : String :=
+    (freqAsIs : Bool) (raw : Nat → Nat → Option Float) : String :=
   if !inQuantifier c rows then "na" else
   match pairList rows.length (ranges.getD 0 (-1)) (ranges.getD 1 (-1)) (ranges.getD 2 (-1)) (ranges.getD 3 (-1)) with
   | none => "na"   -- "range min is greater than range max": an error is the documented answer
@@ -257,7 +257,10 @@ def verdictD (c : Cfg Float) (rows : List Seq) (ranges : List Int) (impl : Strin
         let internal := modeOf c.model c.gapMode == .internal && c.rmGaps
         if usesPi then
           let j1 := judge c rows ranges m true false true raw
-          if clauseOf j1 == "" then "fail:formula-freq-over-all-cells@" ++ (j0.splitOn "@").getD 1 "" else "fail:" ++ j1
+          -- `freqAsIs`: the implementation's matrix is reproduced by the model with the unchanged `probaNt`;
+          -- then a further cause is named under that reading, otherwise under the proper one
+          if clauseOf j1 == "" then "fail:formula-freq-over-all-cells@" ++ (j0.splitOn "@").getD 1 ""
+          else if freqAsIs then "fail:" ++ j1 else "fail:" ++ j0
         else if internal then
           let j1 := judge c rows ranges m false true true raw
           if clauseOf j1 == "" then "fail:formula-internal-gaps-ignore-selection@" ++ (j0.splitOn "@").getD 1 "" else "fail:" ++ j0
@@ -265,7 +268,7 @@ def verdictD (c : Cfg Float) (rows : List Seq) (ranges : List Int) (impl : Strin
 
 /-- the verdict proper: the clause without the explanatory detail -/
 def verdict (c : Cfg Float) (rows : List Seq) (ranges : List Int) (impl : String)
-    (raw : Nat → Nat → Option Float) : String := clauseOf (verdictD c rows ranges impl raw)
+    (freqAsIs : Bool) (raw : Nat → Nat → Option Float) : String := clauseOf (verdictD c rows ranges impl freqAsIs raw)
 
 /-! ### handler -/
 
@@ -311,7 +314,8 @@ def runMatrix (detail : Bool) (args : List String) (impl : String) : Option Ans 
       match initModel (cfg vUsed) seqs with
       | none => none
       | some ini => distance (cfg vUsed) ini (ini.codes.getD i []) (ini.codes.getD j [])
-    some ⟨modelStr, (if detail then verdictD else verdict) (cfg Variant.asIs) seqs ranges impl raw⟩
+    some ⟨modelStr, (if detail then verdictD else verdict) (cfg Variant.asIs) seqs ranges impl
+      (!vUsed.freqOverNucleotides) raw⟩
   | _ => none
 
 def handle : Handler := fun op args impl =>
